@@ -99,7 +99,7 @@ for _fn, (_fld, _sig, _num) in RESTORE.items():
     contract(
         X + "PopenThread." + _fn, "C09", params=dict(self=PT, frame=NoneT) if _fn != "_restore_sigwinch" else dict(self=PT),
         globals={"xp.ON_WINDOWS": False, "xp.ON_POSIX": True, "xp.CAN_RESIZE_WINDOW": True, "signal.SIGINT": 2, "signal.SIGTSTP": 20, "signal.SIGQUIT": 3, "signal.SIGWINCH": 28},
-        externals=PT_EXT, modifies=["self." + _fld],
+        externals=PT_EXT, modifies=["self." + _fld], config={"opaque_truthiness": ("handler",)},
         ensures={"the-saved-handler-goes-back-once": "implies(old(self.%s) is not None and on_main_thread(), len(log('install')) == 1 and log('install')[0] == %d)" % (_fld, _num),
                  "and-is-forgotten": "self.%s is None" % _fld,
                  "nothing-is-installed-otherwise": "implies(old(self.%s) is None, len(log('install')) == 0)" % _fld},
@@ -111,7 +111,7 @@ contract(
     X + "PopenThread._clean_up", "C09", params=dict(self=PT),
     globals={"xp.ON_WINDOWS": False, "xp.ON_POSIX": True, "xp.CAN_RESIZE_WINDOW": True, "signal.SIGINT": 2, "signal.SIGTSTP": 20, "signal.SIGQUIT": 3, "signal.SIGWINCH": 28},
     externals=dict(PT_EXT, **{"PopenThread._restore_sigbreak": Ext(note="Windows only (SIGBREAK)"), "self._restore_sigbreak": Ext(note="Windows only (SIGBREAK)")}),
-    modifies=["self"],
+    modifies=["self"], config={"opaque_truthiness": ("handler",)},
     ensures={"every-saved-handler-is-restored-and-forgotten": "self.old_int_handler is None and self.old_tstp_handler is None and self.old_quit_handler is None "
                                                                "and self.old_winch_handler is None",
              "exactly-the-installed-ones-go-back":
